@@ -196,6 +196,154 @@ def check_tail_calls(stmts, fname):
 
 
 # ----------------------------------------------------------------------------------------------
+# callbacks of the protocol independent layer -> CStmt programs
+# ----------------------------------------------------------------------------------------------
+class CgiTranslator:
+    """Bodies of connection::on_headers_read / set_error / handle_http_error / handle_http_error_eof /
+    load_content / on_some_content_read, context::on_request_ready, request::on_error as `CStmt` terms
+    (lean/Cppcms/C01/CgiSyntax.lean).  Control flow is translated generically (statement order, if/else nesting,
+    return, fall-through); simple statements are mapped to primitives by the table STMTS, the operands of the
+    conditions to fields of `CVars` by the table OPERANDS (the Boolean structure goes through cexpr).  A statement
+    or operand that is not in the tables is a broken tie."""
+
+    STMTS = [
+        (r"return;", ".ret"),
+        (r"set_error\(h,[^;]*\);", ".call .set_error"),
+        (r"h\(http::context::operation_aborted\);", ".call .h_aborted"),
+        (r"h\(http::context::operation_completed\);", ".call .h_completed"),
+        (r"load_content\(context,h\);", ".call .load_content"),
+        (r"handle_http_error\(status,context,h\);", ".call .handle_http_error"),
+        (r"async_read_some\(buffer\.first,buffer\.second,mfunc_to_io_handler\(&connection::on_some_content_read,self\(\),context,h\)\);",
+         ".call .async_read_some"),
+        (r"async_write\(booster::aio::buffer\(async_chunk_\),(true|false),mfunc_to_event_handler\(&connection::handle_http_error_eof,self\(\),code,h\)\);",
+         lambda m: f".call (.async_write {m.group(1)})"),
+        (r"f->async_run\(\);", ".call .forward"),
+        (r"dispatch\(app,d->matched,false\);", ".call .dispatch"),
+        (r"submit_to_pool_internal\(pool,d->matched,true\);", ".call .submit_to_pool"),
+        (r"forwarder::address_typeaddr=service\(\)\.forwarder\(\)\.check_forwading_rules\(env_http_host\(\),env_script_name\(\),env_path_info\(\)\);",
+         ".call .check_forwarding"),
+        (r"intstatus=context->on_content_progress\(n\);", ".call .on_content_progress"),
+        (r"std::pair<char\*,size_t>buffer=context->request\(\)\.get_buffer\(\);", ".call .get_buffer"),
+        (r"on_async_read_complete\(\);", ".call .on_async_read_complete"),
+        (r"do_eof\(\);", ".call .do_eof"),
+        (r"context->response\(\)\.status\(code\);", ".call .set_status"),
+        (r"error_state_=true;", ".call .set_error_state"),
+        (r"app\.swap\(d->app\);", ".call .take_app"),
+        (r"request\(\)\.on_error\(\);", ".call .request_on_error"),
+        (r"d->filter->on_error\(\);", ".call .filter_on_error"),
+        # without an effect on what the model observes
+        (r"error_=s;", '.call (.nop "error_=s")'),
+        (r"booster::shared_ptr<cgi_forwarder>f\(newcgi_forwarder\(self\(\),addr\.first,addr\.second\)\);", '.call (.nop "new cgi_forwarder")'),
+        (r"async_chunk_\.clear\(\);", '.call (.nop "async_chunk_.clear")'),
+        (r"std::ostringstreamss;", '.call (.nop "ss")'),
+        (r"context->response\(\)\.write_http_headers\(\);", '.call (.nop "write_http_headers")'),
+        (r"cppcms::http::response::make_error_response_html_body\(code,ss\);", '.call (.nop "make_error_response_html_body")'),
+        (r"async_chunk_\+=ss\.str\(\);", '.call (.nop "async_chunk_+=")'),
+        (r"booster::system::error_codee;", '.call (.nop "error_code e")'),
+        (r"context->response\(\)\.flush_async_chunk\(e\);", '.call (.nop "flush_async_chunk")'),
+        (r"intstatus=0;", '.call (.nop "status=0")'),
+        (r"booster::shared_ptr<application_specific_pool>pool;", '.call (.nop "pool")'),
+        (r"booster::intrusive_ptr<application>app;", '.call (.nop "app")'),
+        (r"pool\.swap\(d->pool\);", '.call (.nop "pool.swap")'),
+        (r"context_guardg\(app\.get\(\),\*this\);", '.call (.nop "context_guard")'),
+        (r"app->assign_context\(self\(\)\);", '.call (.nop "assign_context")'),
+    ]
+    OPERANDS = [
+        ("context->response().some_output_was_written()", "v_someOutput"),
+        ("context->request().content_length()", "v_contentLength"),
+        ("addr.first.empty()", "v_addrHostEmpty"),
+        ("addr.second", "v_addrPort"),
+        ("buffer.second", "v_bufSecond"),
+        ("d->no_on_error", "v_noOnError"),
+        ("d->filter", "v_filter"),
+    ]
+    IDS = {"e": "v.e", "status": "v.status", "error": "v.error", "app": "v.app", "v_someOutput": "v.someOutput",
+           "v_contentLength": "v.contentLength", "v_addrHostEmpty": "v.addrHostEmpty", "v_addrPort": "v.addrPort",
+           "v_bufSecond": "v.bufSecond", "v_noOnError": "v.noOnError", "v_filter": "v.filter"}
+
+    def cond(self, text):
+        t = re.sub(r"\s+", "", text)
+        for a, b in self.OPERANDS:
+            t = t.replace(a, b)
+        ids = set(re.findall(r"[A-Za-z_]\w*", t))
+        for i in ids:
+            if i not in self.IDS:
+                raise Untranslatable("cgi layer: unknown operand in condition `" + text.strip() + "`")
+        return "(fun v => " + c_to_lean(t, rename=self.IDS) + ")"
+
+    def strip_try(self, body, fname):
+        """`try { A } catch(..) { B }` -> `{ A }`; the handlers may only log"""
+        out, i = "", 0
+        while True:
+            m = re.search(r"\bcatch\s*\(", body[i:])
+            if not m:
+                out += body[i:]; break
+            out += body[i:i + m.start()]
+            j = body.index("{", i + m.end())
+            depth, k = 0, j
+            while True:
+                if body[k] == "{":
+                    depth += 1
+                elif body[k] == "}":
+                    depth -= 1
+                    if depth == 0:
+                        break
+                k += 1
+            handler = body[j + 1:k]
+            for st in split_statements(handler):
+                if st[0] != "simple" or not st[1].startswith("BOOSTER_ERROR"):
+                    raise Untranslatable(f"cgi layer: {fname}: an exception handler does more than logging")
+            i = k + 1
+        return re.sub(r"\btry\b", "", out)
+
+    def seq(self, stmts, fname):
+        parts, i = [], 0
+        while i < len(stmts):
+            kind, text, children = stmts[i]
+            if kind == "simple":
+                t = re.sub(r"\s+", "", text)
+                for pat, res in self.STMTS:
+                    m = re.fullmatch(pat, t)
+                    if m:
+                        parts.append(res(m) if callable(res) else res); break
+                else:
+                    raise Untranslatable(f"cgi layer: {fname}: unknown statement `{re.sub(chr(10), ' ', text.strip())[:100]}`")
+                i += 1
+            elif kind == "block":
+                if text == "":
+                    parts.append(self.seq(children, fname)); i += 1; continue
+                m = re.match(r"if\s*\((.*)\)$", text, re.S)
+                if not m:
+                    raise Untranslatable(f"cgi layer: {fname}: unsupported block `{text[:60]}`")
+                els = ".skip"
+                nxt = i + 1
+                if nxt < len(stmts) and stmts[nxt][0] == "block" and stmts[nxt][1] == "else":
+                    els = self.seq(stmts[nxt][2], fname); nxt += 1
+                c = m.group(1)
+                pre = None
+                ma = re.fullmatch(r"\s*\(\s*status\s*=\s*context->on_headers_ready\(\)\s*\)\s*(!=\s*0)\s*", c)
+                if ma:
+                    pre = ".call .on_headers_ready"; c = "status " + ma.group(1)
+                it = f".ite {self.cond(c)} {self.seq(children, fname)} {els}"
+                if pre:
+                    parts.append(pre)
+                parts.append("(" + it + ")")
+                i = nxt
+            else:
+                raise Untranslatable(f"cgi layer: {fname}: label")
+        if not parts:
+            return ".skip"
+        e = parts[-1]
+        for p in reversed(parts[:-1]):
+            e = f".seq ({p}) ({e})" if not e.startswith("(") else f".seq ({p}) {e}"
+        return "(" + e + ")" if not e.startswith("(") else e
+
+    def function(self, src, sig, fname):
+        body = self.strip_try(function_body(src, sig), fname)
+        return self.seq(split_statements(body), fname)
+
+
+# ----------------------------------------------------------------------------------------------
 # parser::step() -> Lean
 # ----------------------------------------------------------------------------------------------
 class StepTranslator:
@@ -351,10 +499,14 @@ def main(repo, lean):
     req = rd(repo, "src/http_request.cpp")
     util = rd(repo, "src/util.cpp")
     smap = rd(repo, "private/string_map.h")
+    cgi = rd(repo, "src/cgi_api.cpp")
+    ctx = rd(repo, "src/http_context.cpp")
     o = []
     w = o.append
     w("/- GENERATED by translate/c01.py from src/scgi_api.cpp, src/fastcgi_api.cpp, src/http_api.cpp, "
-      "private/http_parser.h, private/http_protocol.h, src/http_request.cpp, src/util.cpp. Do not edit. -/")
+      "private/http_parser.h, private/http_protocol.h, src/http_request.cpp, src/util.cpp, private/string_map.h, "
+      "src/cgi_api.cpp, src/http_context.cpp. Do not edit. -/")
+    w("import Cppcms.C01.CgiSyntax")
     w("set_option linter.unusedVariables false\nnamespace Cppcms.C01.Gen\n")
 
     # ============================================================ SCGI
@@ -620,6 +772,27 @@ def main(repo, lean):
     need(re.search(r"d->read_size\s*\+=\s*n\s*;", b), "on_content_progress read_size")
     need(re.search(r"if\s*\(\s*d->read_size\s*==\s*d->content_length\s*\)\s*\{\s*if\s*\(\s*d->read_full\s*\)", b), "on_content_progress completion test")
     need(re.search(r"d->content_length\s*=\s*conn_->env_content_length\(\)\s*;\s*if\s*\(\s*d->content_length\s*==\s*0\s*\)\s*d->ready\s*=\s*true\s*;", function_body(req, r"bool\s+request::prepare\s*\(\s*\)\s*\{")), "request::prepare")
+    w("")
+
+    # ============================================================ callbacks of the protocol independent layer
+    w("/-! ## callbacks of the protocol independent layer (src/cgi_api.cpp, src/http_context.cpp, src/http_request.cpp) -/")
+    ct = CgiTranslator()
+    for nme, src, sig, doc in [
+        ("cgi_on_headers_read", cgi, r"void\s+connection::on_headers_read\s*\(", "connection::on_headers_read(e,context,h)"),
+        ("cgi_set_error", cgi, r"void\s+connection::set_error\s*\(", "connection::set_error(h,s)"),
+        ("cgi_handle_http_error", cgi, r"void\s+connection::handle_http_error\s*\(", "connection::handle_http_error(code,context,h)"),
+        ("cgi_handle_http_error_eof", cgi, r"void\s+connection::handle_http_error_eof\s*\(", "connection::handle_http_error_eof(e,code,h)"),
+        ("cgi_load_content", cgi, r"void\s+connection::load_content\s*\(", "connection::load_content(context,h)"),
+        ("cgi_on_some_content_read", cgi, r"void\s+connection::on_some_content_read\s*\(", "connection::on_some_content_read(e,n,context,h)"),
+        ("ctx_on_request_ready", ctx, r"void\s+context::on_request_ready\s*\(\s*bool\s+error\s*\)", "context::on_request_ready(error)"),
+        ("req_on_error", req, r"void\s+request::on_error\s*\(\s*\)", "request::on_error()"),
+    ]:
+        w(f"/-- `{doc}` -/")
+        w(f"def {nme} : CStmt := {ct.function(src, sig, doc)}")
+    # the completion handler of the context is on_request_ready(c != operation_completed)
+    need(re.search(r"\(\(\*ctx\)\.\*member\)\(c\s*!=\s*context::operation_completed\)\s*;", ctx), "ct_to_bool")
+    need(re.search(r"ct_to_bool\s+cb\s*=\s*\{\s*&context::on_request_ready\s*,\s*self\(\)\s*\}\s*;\s*conn_->async_prepare_request\(this,cb\)\s*;", ctx), "context::run")
+    need(re.search(r"async_read_headers\(mfunc_to_event_handler\(&connection::on_headers_read,self\(\),context,h\)\)\s*;", cgi), "async_prepare_request")
     w("")
 
     # ============================================================ string_map / string_pool
